@@ -335,6 +335,9 @@ def seg_diff(obs, mod, tol=1e-9, flags=False):
             scale *= max(1.0, min(100.0, max(abs(mod["rx"] / mod["ry"]), abs(mod["ry"] / mod["rx"]))))
         chord = math.hypot(mod["end"][0] - mod["start"][0], mod["end"][1] - mod["start"][1])
         scale = max(scale, chord)
+        # radii far too small for the chord are scaled up (F.6.6), on thin ellipses by orders of magnitude: the points of
+        # the arc, not the attribute values, are the magnitudes the comparison is relative to
+        scale = max([scale] + [abs(c) for q in want for c in q if c == c and abs(c) != float("inf")])
         # near the exact half turn the centre is ill-conditioned (acos at +-1): wider tolerance, as in C05
         half = abs(abs(sweep) - math.pi) < 1e-6
         for p, q in zip(obs["pts"], want):
